@@ -29,6 +29,10 @@ Definition encode (o : op) : str :=
   | OUp n => csi n 65%N
   | ODown n => csi n 66%N
   | ORight n => csi n 67%N
+  | ODown1 => [27; 91; 66]%N
+  | ORight1 => [27; 91; 67]%N
+  | OLeft1 => [27; 91; 68]%N
+  | OLeft n => csi n 68%N
   | OEraseEol => [27; 91; 75]%N
   end.
 Definition encode_all (ops : list op) : str := concat (map encode ops).
